@@ -211,6 +211,10 @@ struct Adv<'a> {
     judged: u64,
     /// blocks whose body was substituted (hash -> operator): the honest body may still arrive later
     substituted: Vec<(Byte32, String)>,
+    /// heights whose block touches a registered script (the client's filter check matches there)
+    hot: HashSet<u64>,
+    /// the forged-filter-hash operator is used at most once per scenario (it stalls the filter sync afterwards)
+    forge_left: u32,
 }
 
 impl<'a> Hook for Adv<'a> {
@@ -230,6 +234,41 @@ impl<'a> Hook for Adv<'a> {
                             if b2.as_slice() != b.as_slice() {
                                 self.substituted.push((b.header().calc_header_hash(), op.clone()));
                                 out.push(Resp { proto: P::Sync, data: server::sync_msg(packed::SendBlock::new_builder().block(b2).build()), label: Label::Invalid(format!("SendBlock|{}", op)) });
+                                continue;
+                            }
+                        }
+                    }
+                }
+            } else if P::of(sent.proto) == Some(P::Filter) && self.forge_left > 0 {
+                // authentic filters, but at a position that matches a registered script the hash of a block the peer made up
+                // (a real block with one output edited and the header re-committed to it), followed at once by that block
+                if let Ok(m) = packed::BlockFilterMessageReader::from_compatible_slice(&r.data) {
+                    if let packed::BlockFilterMessageUnionReader::BlockFilters(bf) = m.to_enum() {
+                        let bf = bf.to_entity();
+                        let start: u64 = bf.start_number().unpack();
+                        let mut hashes: Vec<Byte32> = bf.block_hashes().into_iter().collect();
+                        let pos: Vec<usize> = (0..hashes.len()).filter(|i| self.hot.contains(&(start + *i as u64)) && start + (*i as u64) <= chain.tip()).collect();
+                        if !pos.is_empty() {
+                            let i = *self.rng.pick(&pos);
+                            let real = chain.blocks[(start + i as u64) as usize].clone();
+                            let txs: Vec<packed::Transaction> = real.data().transactions().into_iter().collect();
+                            let t0 = txs[txs.len() - 1].clone().into_view();
+                            let outs: Vec<packed::CellOutput> = t0.outputs().into_iter().collect();
+                            if !outs.is_empty() {
+                                let mut o2 = outs.clone();
+                                let cap: u64 = outs[0].capacity().unpack();
+                                o2[0] = outs[0].clone().as_builder().capacity(Capacity::shannons(cap + 7).pack()).build();
+                                let mut t2: Vec<ckb_types::core::TransactionView> = txs.iter().map(|t| t.clone().into_view()).collect();
+                                let last = t2.len() - 1;
+                                t2[last] = t0.as_advanced_builder().set_outputs(o2).build();
+                                // the builder re-commits the header to the new body (the nonce is then wrong, nobody checks it here)
+                                let fake = real.as_advanced_builder().set_transactions(t2).build();
+                                hashes[i] = fake.hash();
+                                let bf2 = bf.clone().as_builder().block_hashes(hashes.pack()).build();
+                                let msg = packed::BlockFilterMessage::new_builder().set(bf2).build();
+                                self.forge_left -= 1;
+                                out.push(Resp { proto: P::Filter, data: msg.as_bytes(), label: Label::Invalid("BlockFilters|hash-of-fabricated-block".into()) });
+                                out.push(Resp { proto: P::Sync, data: server::sync_msg(packed::SendBlock::new_builder().block(fake.data()).build()), label: Label::Invalid("SendBlock|fabricated-block-before-any-proof".into()) });
                                 continue;
                             }
                         }
@@ -303,8 +342,17 @@ fn scenario(seed: u64, k: u64, out: &Out) {
     }
     let regs = pick_scripts(&mut rng, &w.chains[0], 3, len / 2);
     set_scripts(&w, &regs, None);
+    let mut hot: HashSet<u64> = HashSet::new();
+    {
+        let idx = super::super::refidx::build(&w.chains[0], w.chains[0].tip());
+        for (s, st, start) in regs.iter() {
+            if let Some(h) = idx.history.get(&(*st, super::super::refidx::script_key(s))) {
+                hot.extend(h.iter().filter(|t| t.block > *start).map(|t| t.block));
+            }
+        }
+    }
     let desc = json!({"seed": seed, "scenario": k, "len": len, "last_n": ccfg.last_n, "peers": npeers, "pow": format!("{:?}", params.pow)});
-    let mut adv = Adv { out, k, rng: rng.fork(5), pct: *rng.pick(&[10u64, 25, 50]), desc: desc.clone(), before: None, judged: 0, substituted: vec![] };
+    let mut adv = Adv { out, k, rng: rng.fork(5), pct: *rng.pick(&[10u64, 25, 50]), desc: desc.clone(), before: None, judged: 0, substituted: vec![], hot: hot.clone(), forge_left: if rng.chance(1, 3) { 1 } else { 0 } };
     w.connect_all();
     for step in 0..rng.range(20, 70) {
         if w.dead {
